@@ -238,7 +238,9 @@ def run_case(acc, seed, layout, mode, hold, pos):
     rng = random.Random('c12-%s-%s-%s-%s-%s' % (seed, layout, mode, hold,
                                                 pos))
     world = World(layout=layout, queue_mode=mode, seed=rng.getrandbits(30),
-                  settings={'required_peer_approvals': 1})
+                  settings={'required_peer_approvals': 1,
+                            'always_create_integration_pull_requests':
+                            rng.random() < 0.4})
     case = Case(acc, world, rng, hold, pos,
                 '%s/%s' % (layout, mode))
     case.case = [seed, layout, mode, hold, pos]
